@@ -3385,3 +3385,144 @@ func ruleRecSearchSet(c *Ctx) []Obligation {
 	}
 	return obs
 }
+
+func init() {
+	register(&Rule{Name: "TYPE.BUILTIN", Props: []string{"C09"}, Floor: 30,
+		Doc: "the tables of the built-in types agree: name→kind and kind→name are inverse, and each built-in type is filed under its own name with the kind that name denotes",
+		Run: ruleTypeBuiltin})
+}
+
+func ruleTypeBuiltin(c *Ctx) []Obligation {
+	const R = "TYPE.BUILTIN"
+	pkg := c.YangSSAPkg()
+	if pkg == nil {
+		return []Obligation{undecided(R, "package yang", "-", "SSA package not found")}
+	}
+	initFn := pkg.Func("init")
+	if initFn == nil {
+		return []Obligation{undecided(R, "package initialiser", "-", "yang.init not found")}
+	}
+	fromName := map[string]int64{}
+	toName := map[int64]string{}
+	type base struct {
+		key, name string
+		kind      int64
+		hasKind   bool
+		pos       string
+	}
+	var bases []base
+	yt := c.MustNamed("yang", "YangType")
+	fName, fKind := FieldVar(yt, "Name"), FieldVar(yt, "Kind")
+	// the map literals are built in a temporary and then stored into the global
+	tableOf := map[ssa.Value]string{}
+	eachInstr(initFn, func(in ssa.Instruction) {
+		if st, isS := in.(*ssa.Store); isS {
+			if g, isG := st.Addr.(*ssa.Global); isG {
+				tableOf[st.Val] = g.Name()
+			}
+		}
+	})
+	eachInstr(initFn, func(in ssa.Instruction) {
+		mu, isMU := in.(*ssa.MapUpdate)
+		if !isMU {
+			return
+		}
+		gname, known := tableOf[mu.Map]
+		if !known {
+			if ld, isLd := mu.Map.(*ssa.UnOp); isLd {
+				if g, isG := ld.X.(*ssa.Global); isG {
+					gname, known = g.Name(), true
+				}
+			}
+		}
+		if !known {
+			return
+		}
+		switch gname {
+		case "TypeKindFromName":
+			if ks, okS := constString(mu.Key); okS {
+				if kv, okI := constInt(mu.Value); okI {
+					fromName[ks] = kv
+				}
+			}
+		case "TypeKindToName":
+			if kv, okI := constInt(mu.Key); okI {
+				if ks, okS := constString(mu.Value); okS {
+					toName[kv] = ks
+				}
+			}
+		case "baseTypes":
+			ks, okS := constString(mu.Key)
+			al, isA := mu.Value.(*ssa.Alloc)
+			if !okS || !isA {
+				return
+			}
+			b := base{key: ks, pos: c.InstrPos(mu)}
+			for _, r := range *al.Referrers() {
+				fa, isFA := r.(*ssa.FieldAddr)
+				if !isFA {
+					continue
+				}
+				_, f, _ := fieldOf(fa)
+				for _, rr := range *fa.Referrers() {
+					st, isS := rr.(*ssa.Store)
+					if !isS || st.Addr != ssa.Value(fa) {
+						continue
+					}
+					if f == fName {
+						b.name, _ = constString(st.Val)
+					}
+					if f == fKind {
+						if kv, okI := constInt(st.Val); okI {
+							b.kind, b.hasKind = kv, true
+						}
+					}
+				}
+			}
+			bases = append(bases, b)
+		}
+	})
+	var obs []Obligation
+	var names []string
+	for n := range fromName {
+		names = append(names, n)
+	}
+	sort.Strings(names)
+	for _, n := range names {
+		k := fromName[n]
+		con := fmt.Sprintf("built-in name %q: kind→name gives the name back", n)
+		if back, has := toName[k]; has && back == n {
+			obs = append(obs, ok(R, con, "-", fmt.Sprintf("kind %d ↔ %q", k, n)))
+		} else if !has {
+			obs = append(obs, bad(R, con, "-", fmt.Sprintf("kind %d has no entry in TypeKindToName: the kind prints as unknown-type-%d", k, k)))
+		} else {
+			obs = append(obs, bad(R, con, "-", fmt.Sprintf("TypeKindFromName[%q] = %d but TypeKindToName[%d] = %q: the two tables name different types by one kind", n, k, k, back)))
+		}
+	}
+	sort.Slice(bases, func(i, j int) bool { return bases[i].key < bases[j].key })
+	for _, b := range bases {
+		con := fmt.Sprintf("built-in type %q is filed under its own name with the kind the name denotes", b.key)
+		want, known := fromName[b.key]
+		switch {
+		case b.name != b.key:
+			obs = append(obs, bad(R, con, b.pos, fmt.Sprintf("filed under %q but named %q", b.key, b.name)))
+		case !known:
+			obs = append(obs, bad(R, con, b.pos, "TypeKindFromName has no entry for this name"))
+		case !b.hasKind && want != 0 || b.hasKind && b.kind != want:
+			obs = append(obs, bad(R, con, b.pos, fmt.Sprintf("its Kind is %d (%s) but the name denotes kind %d: a leaf of type %s is resolved as a %s", b.kind, toName[b.kind], want, b.key, toName[b.kind])))
+		default:
+			obs = append(obs, ok(R, con, b.pos, fmt.Sprintf("Kind %d", b.kind)))
+		}
+	}
+	return obs
+}
+
+// YangSSAPkg: the SSA package of pkg/yang.
+func (c *Ctx) YangSSAPkg() *ssa.Package {
+	for _, fn := range c.Funcs {
+		if fn.Pkg != nil && fn.Pkg.Pkg == c.YangPkg() {
+			return fn.Pkg
+		}
+	}
+	return nil
+}
